@@ -184,7 +184,8 @@ def run_scenarios(ctx, scenarios, name="cons", shards=8, timeout=1500):
         for s in scenarios:
             f.write(json.dumps(s) + "\n")
     rc, out, trace, sums = ctx.go_test_parallel("^TestVerifConsumer$", cases, nproc=12, timeout=timeout, name=name,
-                                                only=["sim_cluster*", "sim_fetch*", "prod_driver*", "prod_sync*", "cons_driver*"])
+                                                only=["sim_cluster*", "sim_fetch*", "prod_driver*", "prod_sync*", "cons_driver*"],
+                                                env={"VERIF_INTERNAL": "1"}, extra_files=["internal.ndjson"])
     crash = []
     if rc != 0 and ("panic: " in out or "fatal error: " in out):
         crash = vlib.crash_violations(out)
@@ -219,6 +220,24 @@ def run_scenarios(ctx, scenarios, name="cons", shards=8, timeout=1500):
             v["features"] = {"scenario": cfg.get("name"), "family": cfg.get("family"), "iso": cfg.get("iso"),
                              "version": cfg.get("version"), "slow_reader": stalled, "event": e,
                              "log": next((x.get("batches") for x in tr if x["ev"] == "logdef" and x.get("part") == e.get("part")), None)}
+    # soft conformance of the responseFeeder state machine (never decides a property)
+    try:
+        itrace = ctx.extra_traces.get("internal.ndjson")
+        if itrace and os.path.getsize(itrace) > 100:
+            drs = ctx.tlc_trace("FeederConfTrace", "FeederConfTrace.cfg", itrace, shards=4, name="feederconf-" + name)
+            nd, fst, first = 0, {}, None
+            for r in drs:
+                for lst in r.printed("DRIFT"):
+                    nd += len(lst)
+                    first = first or (lst[0] if lst else None)
+                for d in r.printed("STATS"):
+                    for k, v in d.items():
+                        fst[k] = fst.get(k, 0) + v
+            stats["feederconf"] = dict(fst, drift_events=nd)
+            if nd:
+                ctx.say("DRIFT spec=Consumer.tla/responseFeeder: %d hook events are not explained by the model, first %s (soft; verdict unaffected)" % (nd, first))
+    except Exception as e:   # soft: never fail the check
+        stats["feederconf"] = {"error": str(e)[:200]}
     return viols + crash, stats, trace, cases
 
 
@@ -245,6 +264,7 @@ def check(ctx, pid, clauses, scenarios, mc_runs, gen_stats, extra_viols=None, ex
            "events_validated": stats.get("events", 0),
            "samples": samples, "scenarios_by_family": fam,
            "real_run_counts": {k: stats.get(k, 0) for k in ("delivered", "fetches", "faults", "errors", "stalls", "complete", "unsteered", "skipped")},
+           "feeder_conformance": stats.get("feederconf", {}),
            "clauses": sorted(clauses),
            "clauses_violated_for_other_properties": sorted({v["clause"] for v in viols if v["clause"] not in clauses}),
            "explanation": "partition logs enumerated by TLC from spec/ConsumerLog.tla (every layout within the bounds), stored as batches in the "
